@@ -474,25 +474,32 @@ ThreadPool::~ThreadPool() {
   threads_.clear();
   DISPENSO_VERIF_HOOK("wake.joined", wakeState_.load(std::memory_order_relaxed), 0, 0);
 
-  // Drain central queue
-  while (tryExecuteNext()) {
-  }
-
-  // Drain all rings in the arena (including shadow entries)
-  for (size_t i = 0; i < rings_.size(); ++i) {
-    OnceFunction task;
-    while (rings_[i].try_pop(task)) {
-      DISPENSO_VERIF_HOOK("pool.take.ring", this, 2, i);
-      executeNext(std::move(task));
+  // Drain the central queue and all rings in the arena (including shadow entries) until nothing is
+  // left: a task run here may schedule further work (e.g. a Future continuation) into a source that
+  // has already been drained.
+  bool found;
+  do {
+    found = false;
+    while (tryExecuteNext()) {
+      found = true;
     }
-  }
-  for (size_t i = 0; i < stealRings_.size(); ++i) {
-    OnceFunction task;
-    while (stealRings_[i].try_pop(task)) {
-      DISPENSO_VERIF_HOOK("pool.take.steal", this, 2, i);
-      executeNext(std::move(task));
+    for (size_t i = 0; i < rings_.size(); ++i) {
+      OnceFunction task;
+      while (rings_[i].try_pop(task)) {
+        DISPENSO_VERIF_HOOK("pool.take.ring", this, 2, i);
+        executeNext(std::move(task));
+        found = true;
+      }
     }
-  }
+    for (size_t i = 0; i < stealRings_.size(); ++i) {
+      OnceFunction task;
+      while (stealRings_[i].try_pop(task)) {
+        DISPENSO_VERIF_HOOK("pool.take.steal", this, 2, i);
+        executeNext(std::move(task));
+        found = true;
+      }
+    }
+  } while (found);
   DISPENSO_VERIF_HOOK("pool.dtor.end", this, 0, 0);
   // wakeState_ graveyard freed by RAII (vector destructor)
 }
